@@ -98,6 +98,15 @@ def run_spec(spec: dict, keep_events: bool = False, watchdog_s: float | None = N
     }
     if keep_events:
         result['events'] = run.events
+    # Drop the run's object graph now, in this (single) thread: jitted closures and their XLA
+    # executables must not be freed by a cyclic-GC pass that happens to run in an actor thread of a
+    # later run while other threads compile (see campaign.after_run).
+    run.handles.clear()
+    run.actors.clear()
+    run.shared_callbacks.clear()
+    run.fjit = None
+    run.shared_options = None
+    run.tasks.clear()
     return result
 
 
